@@ -302,7 +302,10 @@ def run_roundtrip(env, f, rec, r):
     if len(second_body) > 6:
         rec.count("large_message_followed_by_large_message")
     try:
-        m1.annotations.pop("ZZZZ", None)       # (what this consumer wrote into it itself)
+        if "ZZZZ" in f["anns"]:                 # (what this consumer wrote into it itself is taken back: the message's own entry, if it had one)
+            m1.annotations["ZZZZ"] = bytes(f["anns"]["ZZZZ"])
+        else:
+            m1.annotations.pop("ZZZZ", None)
         still = msg_fields_repo(m1)
     except Exception as x:
         still = ("raised", repr(x))
